@@ -618,7 +618,12 @@ def body(ck: common.Check):
                 if mine != ans["model"]:
                     ck.disagreement(s, case, mine, ans["model"])
                 if why is not None:
-                    ck.violation(f"C18:{d['type']}:{field_of(why)}", why, {"case": case, "impl": slim(impl)})
+                    fld = field_of(why)
+                    if fld.endswith(".f"):
+                        fld = fld[:-2]
+                    if d["type"] == "APD" and fld.split(".")[-1] in ("avalanche_gain", "common_voltage", "pixel_reset_voltage"):
+                        fld = "characteristics.setter-not-saved"
+                    ck.violation(f"C18:{d['type']}:{fld}", why, {"case": case, "impl": slim(impl)})
             else:
                 ck.case(case, nontrivial=True, stream=s)
                 ck.count(f"pipeline:type={case['type']}")
